@@ -42,6 +42,8 @@ pub enum Verdict {
     /// after an error the workers are blocked inside the channel send while `Drop` joins the pool
     /// (bounded-progress predicate of sched.rs held for 10 s): `Txtpp::run` can never return
     HangInDrop,
+    /// one directory was queued for scanning more than `sched::RESCAN_LIMIT` times: endless rescan
+    Livelock,
     /// harness watchdog fired: inconclusive, never a violation
     Watchdog,
 }
@@ -59,6 +61,7 @@ impl Verdict {
             Verdict::Err(m) => format!("err({})", m.lines().map(|l| l.trim()).filter(|l| !l.is_empty()).take(4).collect::<Vec<_>>().join(" | ")),
             Verdict::Deadlock => "DEADLOCK".into(),
             Verdict::HangInDrop => "HANG-IN-DROP".into(),
+            Verdict::Livelock => "LIVELOCK(rescanning a directory without end)".into(),
             Verdict::MainPanic(m) => format!("PANIC({m})"),
             Verdict::Watchdog => "watchdog".into(),
         }
@@ -199,8 +202,10 @@ pub fn run_inproc(cfg: &RunCfg, spec: Spec, cwd: Option<&Path>, log_events: bool
                 break Verdict::MainPanic(p);
             }
             Err(mpsc::RecvTimeoutError::Timeout) => {
-                if let Ok(Signal::Deadlock) = sig_rx.try_recv() {
-                    break Verdict::Deadlock; // coordinator thread stays parked (leaked)
+                match sig_rx.try_recv() {
+                    Ok(Signal::Deadlock) => break Verdict::Deadlock, // coordinator thread stays parked (leaked)
+                    Ok(Signal::Livelock) => break Verdict::Livelock,
+                    Err(_) => {}
                 }
                 if ctl.stuck_in_send(Duration::from_secs(10)) {
                     break Verdict::HangInDrop; // coordinator thread stays blocked (leaked)
